@@ -210,7 +210,7 @@ type TraceEv struct {
 func (e TraceEv) String() string { return fmt.Sprintf("%s %d %d", e.Kind, e.A, e.B) }
 
 const maxTasks = 512 // caller tasks plus goroutines of the library alive at one time
-const waitCap = 64   // tasks parked on one primitive
+const waitCap = 512  // tasks parked on one primitive (= maxTasks: the list cannot overflow)
 const traceCap = 1 << 16
 
 //go:norace
@@ -1238,6 +1238,12 @@ func (w *WaitList) add(t *Task) {
 	if w.n < len(w.t) {
 		w.t[w.n] = t
 		w.n++
+		return
+	}
+	// cannot happen while waitCap >= maxTasks; a dropped waiter would never be
+	// woken and the run would end as a bogus deadlock
+	if S != nil {
+		S.abort("too-many-waiters")
 	}
 }
 
